@@ -178,7 +178,7 @@ pub fn run(ctx: &Ctx) -> (Acc, String, bool) {
     let pair_total = f1 + f2 + f3 + f4 + f5 + f6 + f7 + f8;
     let triple_total = if ctx.quick() { nb * nb * nb / 10 } else { nb * nb * nb };
     let mixed_triples = (np + ns) * nb * nb; // unary around the middle operand
-    let random_total: u64 = ctx.pick(30_000, 600_000);
+    let random_total: u64 = ctx.pick(400_000, 20_000_000);
     let seed = ctx.seed;
     let at = |i: usize| ATOMS[i % ATOMS.len()].to_string();
     let acc = run_cases(ctx, pair_total + triple_total + mixed_triples + random_total, |i, acc| {
